@@ -795,6 +795,30 @@ pub fn run(args: &Args, rec: &mut Recorder) {
                 witness(&w, &note),
             ),
             Ok(Ok((m2, _))) => {
+                if m2 == m && !known_shape {
+                    // writing the reloaded model must reproduce the written file (nothing may pile up
+                    // in the main file from cycle to cycle)
+                    // (compared as token sequences incl. comments: the white space between an include
+                    // directive and its neighbours is not covered by the property)
+                    let w2 = m2.write_to_string();
+                    if let (Ok(t1), Ok(t2)) = (vcommon::lexer::lex(&written_text), vcommon::lexer::lex(&w2)) {
+                        // as multisets: the order of items around an include directive inside a block
+                        // whose items the writer reorders (RECORD_LAYOUT) may differ between cycles
+                        let mut a: Vec<String> = t1.iter().map(|t| t.text.trim().to_string()).collect();
+                        let mut b: Vec<String> = t2.iter().map(|t| t.text.trim().to_string()).collect();
+                        a.sort();
+                        b.sort();
+                        if a != b {
+                            let extra: Vec<&String> = b.iter().filter(|x| a.iter().filter(|y| y == x).count() < b.iter().filter(|y| y == x).count()).take(3).collect();
+                            rec.violation(
+                                "tokens written after reloading the written file differ (something piles up in a file with includes)",
+                                &format!("{} vs {} tokens; more often in the second text: {extra:?}", t1.len(), t2.len()),
+                                witness(&w, &note),
+                            );
+                        }
+                    }
+                    rec.bump("written_file_fixpoint_checked");
+                }
                 if m2 != m {
                     // known shape: the include directive is written at the place of the first item of
                     // the include file; if position-restricted items of a RECORD_LAYOUT are reordered
